@@ -221,11 +221,19 @@ def _safe(s):
 
 
 def _load_findings(prop):
-    if not os.path.exists(FINDINGS_FILE):
-        return []
-    with open(FINDINGS_FILE) as fh:
-        data = json.load(fh)
-    return [f for f in data.get("findings", []) if f.get("property") == prop]
+    out = []
+    paths = [FINDINGS_FILE]
+    # development aid for check builders: extra (proposed) findings, never used by registered commands
+    extra = os.environ.get("VERIF_EXTRA_FINDINGS")
+    if extra:
+        paths += extra.split(os.pathsep)
+    for p in paths:
+        if not os.path.exists(p):
+            continue
+        with open(p) as fh:
+            data = json.load(fh)
+        out += [f for f in data.get("findings", []) if f.get("property") == prop]
+    return out
 
 
 def main_wrapper(prop, fn):
